@@ -251,6 +251,16 @@ def r2_classes(repo, report):
     sub = [r for r in rows if all(r.valuation.get(k) == 1 for k in xatoms)] if xatoms else rows
     # a restriction is None or a non-empty string: 'falsy but not None' does not occur
     sub = [r for r in sub if not any(r.valuation.get(f"truthy:{x}") is False and r.valuation.get(f"isnone:{x}") is False for x in ("FR", "BR"))]
+    # the adapter-specific minimum overlap is limited by the length of the sequence that will be searched: the expanded
+    # (x{n}) sequence without its placement characters
+    clamp_atoms = sorted({k for r in rows for k in r.valuation if k.startswith("sign:PARAMS.get('min_overlap'")})
+    clamp_stores = sorted({str(e[2]) for r in rows for e in r.effects if e[0] == "store" and e[1] == "PARAMS['min_overlap']"})
+    okc = clamp_atoms == ["sign:PARAMS.get('min_overlap', 0)-len(SEQ)"] and clamp_stores == ["len(SEQ)"]
+    report.ob("C18.R2", "AdapterSpecification.parse: min_overlap is limited by the expanded, restriction-free sequence", okc, facts={"compared_with": clamp_atoms, "set_to": clamp_stores}, loc=repo.loc(pa),
+              expected="if parameters.get('min_overlap', 0) > len(<sequence after expand_braces and _parse_restrictions>): parameters['min_overlap'] = len(<that sequence>)",
+              why="" if okc else f"the overlap is compared with / set to {clamp_atoms + clamp_stores}: for 'ACGT{{20}};o=20' the unexpanded text is 8 characters, so the requested overlap of 20 silently becomes 8")
+    if not okc:
+        sub = [r for r in sub if not any(k in r.valuation for k in clamp_atoms if k != "sign:PARAMS.get('min_overlap', 0)-len(SEQ)")] or sub
     # the tuple-membership test on TYPE at the top: rows that raise because TYPE is none of the three are outside the constraint
     try:
         mism, n, _ = check_table(sub, roles, expected3, outcome3, constraint=constraint3, ignore_atoms=anch_atoms + ["sign:PARAMS.get('min_overlap', 0)-len(SEQ)"])
